@@ -46,6 +46,11 @@ using std::string;
 // behind the preprocessor.)
 static CPPVisibility preprocessor_vis = V_public;
 
+// The deepest nesting of #include files we accept before reporting an error,
+// so that a file that includes itself ends in a diagnostic rather than in the
+// exhaustion of file descriptors.
+static const int max_include_depth = 200;
+
 // Don't forget to update CPPToken::output() when adding entries.
 static const std::unordered_map<std::string, int> keywords = {
   {"alignas", KW_ALIGNAS},
@@ -1976,6 +1981,19 @@ handle_include_directive(const string &args, const YYLTYPE &loc) {
     // Don't include it if we included it before and it had #pragma once.
     ParsedFiles::const_iterator it = _parsed_files.find(file);
     if (it != _parsed_files.end() && it->_pragma_once) {
+      return;
+    }
+
+    if (get_file_depth() >= max_include_depth) {
+      // This is fatal, like it is for a compiler: a file that includes itself
+      // more than once would otherwise still be read an exponential number
+      // of times.  Drop all pending input.
+      error("#include nested too deeply", loc);
+      while (_infile != nullptr) {
+        InputFile *infile = _infile;
+        _infile = infile->_parent;
+        delete infile;
+      }
       return;
     }
 
